@@ -33,7 +33,7 @@ RULE = ("case = (API, harmonic partner, binning family, context); partner alphab
         "context: partner alone, or (partners with <= 16 modes) in a product with a position grid, a Gauss-Legendre "
         "sphere (non-uniform volumes) or a second harmonic space, on either side; inside a case EVERY binning of the "
         "family and the complete unit-vector basis of the input space (spectra: every one-hot + one generic; fields: "
-        "every one-pixel field) are applied; `spaces` ranges over every non-empty ordered selection. dof: all maps "
+        "every one-pixel field) are applied; `spaces` ranges over None, every index, the 1-tuple of the partner and the reversed pair. dof: all maps "
         "{0,1,2}^n. non-trivial = a partition with > 1 bin and a bin with > 1 member was compared")
 ASSUMPTIONS = [
     "numeric values (generic spectrum, complex amplitudes, anisotropic distances) are alphabet values selected by "
@@ -63,8 +63,8 @@ def _req(cond, key, what):
 # =============================================================================================
 def _bounds(tier):
     if tier == "thorough":
-        return dict(n12=6, n3=4, lmax=5, prodmax=16)
-    return dict(n12=4, n3=3, lmax=3, prodmax=12)
+        return dict(n12=6, n3=4, lmax=5, prodmax=16, allvia=True)
+    return dict(n12=4, n3=3, lmax=3, prodmax=9, allvia=False)
 
 
 OTHERS = {
@@ -78,6 +78,8 @@ def _partners(tier, seed):
     B = _bounds(tier)
     out = [s for s in R.rg_specs(B["n12"], seed, (1, 2)) if s["harm"]]
     out += [s for s in R.rg_specs(B["n3"], seed, (3,)) if s["harm"]]
+    if not B["allvia"]:      # quick: the codomain route only for default and anisotropic distances
+        out = [s for s in out if s["via"] == "direct" or s["dist"] is None or isinstance(s["dist"], list)]
     out += R.lm_specs(B["lmax"])
     out.sort(key=lambda s: (int(np.prod(s["shape"])) if s["t"] == "RG" else R.ref_geom(s)["size"]))
     return out
@@ -93,9 +95,11 @@ def cases(tier, seed):
             for fam in ("natural", "lin", "log"):
                 out.append(dict(kind=api, partner=s, family=fam, ctx="single", seed=seed))
                 if size <= B["prodmax"] and fam != "log" and size > 1:
-                    for o in sorted(OTHERS):
-                        for side in ("left", "right"):
-                            out.append(dict(kind=api, partner=s, family=fam, ctx="%s:%s" % (side, o), seed=seed))
+                    ctxs = ["%s:%s" % (side, o) for o in sorted(OTHERS) for side in ("left", "right")]
+                    if fam == "lin":
+                        ctxs = ["left:gl", "right:lm"]
+                    for ctx in ctxs:
+                        out.append(dict(kind=api, partner=s, family=fam, ctx=ctx, seed=seed))
     for dom in ("rg4", "rg22", "gl22", "gl31", "dof3"):
         for ctx in ("single", "left", "right"):
             out.append(dict(kind="dof", dom=dom, ctx=ctx, seed=seed))
@@ -230,10 +234,11 @@ def _run_distributor(case):
             _req(op.target is tgt and op.domain is ift.DomainTuple.make(sdoms), K + "domain-target", "domain %r target %r" % (op.domain, op.target))
             ind = _indicator(b, hp.size)
             no = doms[1 - ih].size if len(doms) > 1 else 1
+            amps = (1.0, 1j) if len(doms) == 1 else (1.0,)
             # times on every unit spectrum (x every pixel of the other space), real and imaginary
             for ib in range(b["nbin"]):
                 for jo in range(no):
-                    for amp in (1.0, 1j):
+                    for amp in amps:
                         e = np.zeros((b["nbin"], no) if ih == 0 else (no, b["nbin"]), dtype=type(amp))
                         want = np.zeros((hp.size, no) if ih == 0 else (no, hp.size), dtype=type(amp))
                         if ih == 0:
@@ -251,7 +256,7 @@ def _run_distributor(case):
             # adjoint on every unit mode: the unit vector of its bin ("sums over each bin")
             for ip in range(hp.size):
                 for jo in range(no):
-                    for amp in (1.0, 1j):
+                    for amp in amps:
                         e = np.zeros((hp.size, no) if ih == 0 else (no, hp.size), dtype=type(amp))
                         want = np.zeros((b["nbin"], no) if ih == 0 else (no, b["nbin"]), dtype=type(amp))
                         if ih == 0:
@@ -277,10 +282,10 @@ def _run_distributor(case):
 # =============================================================================================
 #                                        power_analyze
 # =============================================================================================
-def _selections(n):
+def _selections(n, ih):
     if n == 1:
         return [None, 0, (0,)]
-    return [None, 0, 1, (0,), (1,), (0, 1), (1, 0)]
+    return [None, 0, 1, (ih,), (1, 0)]
 
 
 def _ref_analyze(ift, doms, ih, b, other_spec, sel, bounds):
@@ -329,7 +334,9 @@ def _analyze_cases(ift, case):
 
 
 def _run_analyze(case, phase=False):
+    import logging
     import nifty.cl as ift
+    logging.getLogger("NIFTy").setLevel(logging.ERROR)      # the documented warning for non-harmonic spaces in the domain
     hp, bs, doms, ih, ospec = _analyze_cases(ift, case)
     if bs is None:
         return skip("ambiguous unique k-lengths")
@@ -338,13 +345,20 @@ def _run_analyze(case, phase=False):
     dom = ift.DomainTuple.make(doms)
     n0 = doms[0].size
     n1 = doms[1].size if len(doms) > 1 else 1
-    amps = [1.0, 1j, complex(*_fill(case["seed"], 2, 2)) * (1 - 2j)] if not phase else [complex(*_fill(case["seed"], 2, 2)), 1j, 1.0 + 0j]
+    amps = [1.0, 1j, complex(*_fill(case["seed"], 2, 2)) * (1 - 2j)] if not phase else [1j, 1.0 + 0j, complex(*_fill(case["seed"], 2, 2))]
+    if len(doms) > 1:
+        amps = amps[-1:]     # products: one generic complex amplitude per pixel fixes the |f|^2 basis
     ncalls = nrej = 0
     API = "power_analyze|keep_phase" if phase else "power_analyze"
-    for b in bs:
+    for bi, b in enumerate(bs):
         K = "%s|%s|" % (API, _klabel(b, case))
         bounds = b["bounds"]
-        for sel in _selections(len(doms)):
+        # the first binning of the case gets every selection and amplitude; the others the generic amplitude and
+        # the selections None (= all spaces) and the partner alone
+        full = bi == 0
+        sels = _selections(len(doms), ih) if full else ([None, ih] if len(doms) > 1 else [None])
+        amps_b = amps if full else amps[-1:]
+        for sel in sels:
             status, Ps, rdoms = _ref_analyze(ift, doms, ih, b, ospec, sel, bounds)
             if status == "ambiguous":
                 continue
@@ -384,7 +398,7 @@ def _run_analyze(case, phase=False):
             # ---- complete basis of |f|^2: every one-pixel field, with a real, an imaginary and a generic complex amplitude
             for p0 in range(n0):
                 for p1 in range(n1):
-                    for a in amps:
+                    for a in amps_b:
                         arr = np.zeros((n0, n1), dtype=type(a))
                         arr[p0, p1] = a
                         got, dt = call(arr)
@@ -401,7 +415,7 @@ def _run_analyze(case, phase=False):
                                  "one-pixel field (%d,%d) amplitude %r, spaces=%r: got %s, expected %s" % (
                                      p0, p1, a, sel, got.ravel()[:8], want.ravel()[:8]))
             # ---- the statement's form: |f|^2 = distributed spectrum -> exactly that spectrum (only the partner analysed)
-            if sel in (ih, (ih,)) or (len(doms) == 1 and sel is None):
+            if (sel == ih and isinstance(sel, int)) or (len(doms) == 1 and sel is None):
                 ind = _indicator(b, hp.size)
                 no = n1 if ih == 0 else n0
                 spectra = [np.eye(b["nbin"])[i] for i in range(b["nbin"])] + [_fill(case["seed"], 3, b["nbin"])]
@@ -443,11 +457,12 @@ def _run_operator(case):
     n0 = doms[0].size
     n1 = doms[1].size if len(doms) > 1 else 1
     napp = 0
+    field_broken = None
     pg = R.ref_geom(case["partner"])
-    for b in bs:
+    for bi, b in enumerate(bs):
         K = "create_power_operator|%s|" % _klabel(b, case)
         ind = _indicator(b, hp.size)
-        spectra = [("field", np.eye(b["nbin"])[i] + 0.0) for i in range(b["nbin"])] + [("field", _fill(case["seed"], 6, b["nbin"]))]
+        spectra = [("onehot" if bi else "field", np.eye(b["nbin"])[i] + 0.0) for i in range(b["nbin"])] + [("field", _fill(case["seed"], 6, b["nbin"]))]
         spectra.append(("field", _fill(case["seed"], 7, b["nbin"]) * (1 + 0.5j)))
         if b["kind"] == "natural":
             spectra.append(("callable", None))
@@ -460,8 +475,16 @@ def _run_operator(case):
                 km = np.array([np.mean(pg["karr"].ravel()[b["bins"] == i]) for i in range(b["nbin"])])
                 s = fun(km)
             else:
+                if field_broken:
+                    continue
                 sf = ift.makeField(b["ps"], s)
-                op = ift.create_power_operator(dom, sf, space=ih if len(doms) > 1 else None)
+                try:
+                    op = ift.create_power_operator(dom, sf, space=ih if len(doms) > 1 else None)
+                except TypeError as e:
+                    # documented: "power_spectrum : callable or Field".  Recorded once per case; the callable route goes on.
+                    field_broken = Fail("create_power_operator|Field-spectrum|raises-TypeError",
+                                        "create_power_operator(%r, <Field on %r>) raises %r" % (doms, b["ps"], e))
+                    continue
                 if len(doms) == 1:
                     op2 = ift.create_power_operator(hp, sf)
                     _req(op2.domain is dom, K + "domain", "%r" % (op2.domain,))
@@ -471,10 +494,20 @@ def _run_operator(case):
             modes = [("times", op.times, D), ("adjoint_times", op.adjoint_times, np.conj(D))]
             if np.all(d1 != 0):
                 modes += [("inverse_times", op.inverse_times, 1. / D), ("adjoint_inverse_times", op.adjoint_inverse_times, 1. / np.conj(D))]
+            if how == "onehot":
+                # (the diagonal structure is decided on the generic spectra of this binning; here: the values)
+                for mname, fn, Dm in modes:
+                    for amp in (1.0, 1j):
+                        e = np.full((n0, n1), amp)
+                        got = fn(ift.makeField(dom, e.reshape(dom.shape))).asnumpy().reshape(n0, n1)
+                        napp += 1
+                        _req(_close(got, e * Dm), K + "%s!=diagonal-of-distributed-spectrum|field" % mname,
+                             "%s on the constant field %r with one-hot spectrum %s: %s" % (mname, amp, s, got.ravel()[:8]))
+                continue
             for mname, fn, Dm in modes:
                 for p0 in range(n0):
                     for p1 in range(n1):
-                        for amp in (1.0, 1j):
+                        for amp in ((1.0, 1j) if len(doms) == 1 else (1.0,)):
                             e = np.zeros((n0, n1), dtype=type(amp))
                             e[p0, p1] = amp
                             got = fn(ift.makeField(dom, e.reshape(dom.shape))).asnumpy().reshape(n0, n1)
@@ -482,6 +515,8 @@ def _run_operator(case):
                             want = e * Dm
                             _req(_close(got, want), K + "%s!=diagonal-of-distributed-spectrum|%s" % (mname, how),
                                  "%s on unit vector (%d,%d)*%r: %s, expected %s at that pixel" % (mname, p0, p1, amp, got[p0, p1], want[p0, p1]))
+    if field_broken is not None:
+        return bad(field_broken.what, finding_key=field_broken.key, stats=dict(binnings=len(bs), applications=napp))
     return ok(nontrivial=_nontrivial(bs), outcome="operator|%s|%s|%s" % (case["family"], case["ctx"].split(":")[0], "multi-member" if _nontrivial(bs) else "trivial"),
               stats=dict(binnings=len(bs), applications=napp))
 
